@@ -123,7 +123,8 @@ func runC16(c *Ctx) {
 			if !ok || sig.Params().Len() != 2 || sig.Results().Len() != 0 {
 				return false
 			}
-			return types.Identical(sig.Params().At(1).Type(), types.Universe.Lookup("error").Type()) && id.Name == "callback"
+			_, firstIsAny := sig.Params().At(0).Type().Underlying().(*types.Interface)
+			return types.Identical(sig.Params().At(1).Type(), types.Universe.Lookup("error").Type()) && firstIsAny
 		})
 		_ = cbField
 		allow := map[string]string{"actor.(*PID).completeRequest": "", "actor.(*grainPID).completeRequest": "", "actor.(*requestState).setCallback": "late Then", "actor.(*grainPID).runTeardownCallback": "teardown on the grain turn"}
